@@ -124,11 +124,32 @@ def make_history(seed, shape, blocks, scales, T, dtype, lowrank=False):
 
 
 # ============================================================================ workers: Distributed Shampoo
+def paxes(rank, ptype):
+    """axes of a (merged) block that get a preconditioner (Preconditioner.should_precondition_dims)"""
+    if ptype in (None, "ALL") or rank <= 1:
+        return list(range(rank))
+    if ptype == "INPUT":
+        return list(range(rank - 1))
+    return [rank - 1]
+
+
 def _ds_opt(c, graft, beta1=None):
     from precondition import distributed_shampoo as ds
     kw = {}
     if c["root"] == "eigh":
         kw["eigh"] = True
+    if c.get("ptype"):
+        kw["precondtioner_type"] = getattr(ds.PreconditionerType, c["ptype"])      # (sic) the package's spelling
+    if c.get("comp"):
+        kw["compression_rank"] = c["comp"]
+    mode = c.get("mode", "replicated")
+    if mode == "pmapq":
+        kw.update(batch_axis_name="batch", best_effort_memory_usage_reduction=True)
+    elif mode == "sharded":
+        from jax.sharding import PartitionSpec as P
+        spec = P("x", None, None)
+        kw.update(shard_optimizer_states=True, statistics_partition_spec=spec, preconditioner_partition_spec=spec,
+                  num_devices_for_pjit=1)
     return ds.distributed_shampoo(
         c.get("lr", 0.1), block_size=c["block"], beta1=(c.get("beta1", 0.0) if beta1 is None else beta1), beta2=c["beta2"],
         diagonal_epsilon=1e-10, matrix_epsilon=c.get("meps", 1e-6), weight_decay=0.0, start_preconditioning_step=0,
@@ -143,41 +164,105 @@ def _np(x):
     return np.asarray(x)
 
 
-def _ds_leaf_state(st):
-    """numpy view of one ParameterStats"""
+def _dense(v, dev0):
+    """float view of a statistic / preconditioner (plain array, or int-quantized value with per-column buckets)"""
     import numpy as np
+    if hasattr(v, "quantized"):
+        q = dev0(v.quantized)
+        if q.dtype.kind == "i":
+            d, b = dev0(v.diagonal), dev0(v.bucket_size)
+            out = q.astype(np.float32) * b[np.newaxis, :]
+            if d.size:
+                out = out + np.diag(d)
+            return out, q
+        return q, None
+    return dev0(v), None
+
+
+def _ds_leaf_state(st, dev0=None, glob=None):
+    """numpy view of one parameter's state; `glob` = (statistics, preconditioners) of the sharded global state"""
+    import numpy as np
+    dev0 = dev0 or (lambda x: np.asarray(x))
     m = st.training_metrics
-    d = {
-        "stats": [_np(s) for s in st.statistics],
-        "pre": [_np(p) for p in st.preconditioners],
-        "mom": _np(st.momentum.to_float()),
-        "dmom": _np(st.diagonal_momentum.to_float()),
-    }
-    ds_ = st.diagonal_statistics.to_float() if hasattr(st.diagonal_statistics, "to_float") else st.diagonal_statistics
-    d["diag"] = _np(ds_) if not isinstance(ds_, (list, tuple)) else np.zeros(0)
-    if len(st.statistics):
-        d["err"] = _np(m.inverse_pth_root_errors).reshape(-1)
-        d["iters"] = _np(m.inverse_pth_root_iters).reshape(-1)
-        d["retries"] = _np(m.total_retries).reshape(-1)
-        d["maxev"] = _np(m.max_eigen_value).reshape(-1)
+    fl = lambda v: dev0(v.to_float()) if hasattr(v, "to_float") else dev0(v)   # noqa: E731
+    d = {"mom": fl(st.momentum), "dmom": fl(st.diagonal_momentum), "payload": []}
+    if glob is not None:
+        i0 = int(st.index_start)
+        sizes = [int(z) for z in st.sizes]
+        d["index_start"] = i0
+        d["stats"] = [np.asarray(glob[0][i0 + k])[:z, :z] for k, z in enumerate(sizes)]
+        d["pre"] = [np.asarray(glob[1][i0 + k])[:z] for k, z in enumerate(sizes)]
+        d["pre"] = [x[:, :z] if x.shape[1] >= z and not glob[2] else x for x, z in zip(d["pre"], sizes)]
+        nst = len(sizes)
+    else:
+        d["stats"], d["pre"] = [], []
+        for v in st.statistics:
+            a, _q = _dense(v, dev0)
+            d["stats"].append(a)
+        for v in st.preconditioners:
+            a, q = _dense(v, dev0)
+            d["pre"].append(a)
+            if q is not None:
+                d["payload"].append(q)
+        nst = len(st.statistics)
+    ds_ = st.diagonal_statistics
+    ds_ = ds_.to_float() if hasattr(ds_, "to_float") else ds_
+    d["diag"] = dev0(ds_) if not isinstance(ds_, (list, tuple)) else np.zeros(0)
+    if nst:
+        d["err"] = dev0(m.inverse_pth_root_errors).reshape(-1)
+        d["iters"] = dev0(m.inverse_pth_root_iters).reshape(-1)
+        d["retries"] = dev0(m.total_retries).reshape(-1)
+        d["maxev"] = dev0(m.max_eigen_value).reshape(-1)
     else:
         d["err"] = d["iters"] = d["retries"] = d["maxev"] = np.zeros(0)
     return d
 
 
 def ds_run(c, graft, shapes, hist, beta1=None):
-    """hist: list over steps of {name: array}. Returns per step {name: (update, leaf_state)}"""
+    """hist: list over steps of {name: array}. Returns per step {name: (update, leaf_state)}.  Modes: replicated (jit),
+    pmapq (int16-quantized statistics and preconditioners, pmap over c['ndev'] forced host devices), sharded (jit under a
+    one-device mesh)"""
+    import contextlib as _cl
+    import numpy as np
     import jax
     import jax.numpy as jnp
     opt = _ds_opt(c, graft, beta1)
     names = sorted(shapes)
     params = {n: jnp.zeros(shapes[n], jnp.float32) for n in names}
-    state = opt.init(params)
-    upd = jax.jit(opt.update)
+    mode = c.get("mode", "replicated")
     out = []
-    for g in hist:
-        u, state = upd({n: jnp.asarray(g[n], jnp.float32) for n in names}, state, params)
-        out.append({n: (_np(u[n]), _ds_leaf_state(state.stats[n])) for n in names})
+    if mode == "pmapq":
+        devs = jax.devices()[:c.get("ndev", 1)]
+        if len(devs) < c.get("ndev", 1):
+            raise RuntimeError(f"only {len(devs)} host devices")
+        nd = len(devs)
+        rep = lambda t: jax.tree.map(lambda x: jnp.broadcast_to(x, (nd,) + x.shape), t)   # noqa: E731
+        rparams = rep(params)
+        state = jax.pmap(opt.init, axis_name="batch", devices=devs)(rparams)
+        upd = jax.pmap(opt.update, axis_name="batch", devices=devs)
+        dev0 = lambda x: np.asarray(x)[0]   # noqa: E731
+        for g in hist:
+            u, state = upd(rep({n: jnp.asarray(g[n], jnp.float32) for n in names}), state, rparams)
+            out.append({n: (dev0(u[n]), _ds_leaf_state(jax.tree.map(lambda x: np.asarray(x)[0], state.stats[n]))) for n in names})
+        return out
+    if mode == "sharded":
+        from jax.sharding import Mesh
+        mesh = Mesh(np.array(jax.devices()[:1]), ("x",))
+        with mesh:
+            state = opt.init(None).init_fn(params)
+            upd = jax.jit(opt.update)
+            for g in hist:
+                u, state = upd({n: jnp.asarray(g[n], jnp.float32) for n in names}, state, params)
+                gs = state.stats.global_stats
+                glob = (np.asarray(gs.statistics), np.asarray(gs.preconditioners), bool(c.get("comp")))
+                out.append({n: (_np(u[n]), _ds_leaf_state(state.stats.local_stats[n], None, glob)) for n in names})
+        return out
+    with _cl.nullcontext():
+        state = opt.init(params)
+        upd = jax.jit(opt.update)
+        for g in hist:
+            u, state = upd({n: jnp.asarray(g[n], jnp.float32) for n in names}, state, params)
+            out.append({n: (_np(u[n]), _ds_leaf_state(state.stats[n])) for n in names})
     return out
 
 
@@ -229,6 +314,52 @@ def _tols(stats, p, c, floor=None):
     return kr, max(TOL * kr, 128 * u * ks ** 0.75), max(TOL * kr, 256 * u * ks)
 
 
+def _mode_tols(c, kap, tol, tolp, nmax=8, naxes=2):
+    """tolerances for (update, statistics, stored roots) in the optimizer modes"""
+    tst = TOL
+    if c.get("mode") == "pmapq":
+        # int16 payloads: a rounding-level change of a root entry may move its payload by one unit = max|column| / 32767
+        # (classified `payload.one-unit-flip`); an n x n root with such flips is off by <= n units in norm, a gradient may excite
+        # the small directions of the root (factor kappa_root), one root per preconditioned axis
+        q = 4.0 * max(nmax, 1) * max(naxes, 1) / 32767
+        tol, tolp, tst = tol + q * kap, tolp + 8.0 / 32767, 1e-4
+    if c.get("mode") == "sharded":
+        # the sharded update applies the roots of the PREVIOUS refresh: the current gradient is not part of those statistics and
+        # may excite their weakest directions fully, so the update is only as accurate as the stored roots
+        tol = max(tol, tolp)
+    if c.get("comp"):
+        tolp = float("inf")     # packed roots: eigenvector signs are free; the update decides
+    return tol, tst, tolp
+
+
+def _gap_ok(stats, comp):
+    """compression_rank: the retained eigen-directions are well separated from the averaged ones (C10's caveat)"""
+    import numpy as np
+    r = abs(comp)
+    for s_ in stats:
+        s_ = np.asarray(s_, np.float64)
+        n = len(s_)
+        if n <= r + 2:
+            continue
+        w = np.linalg.eigvalsh((s_ + s_.T) / 2)[::-1]
+        if not w[0] > 0:
+            return False
+        gap = (w[r - 1] - w[r]) if comp > 0 else (w[n - r - 1] - w[n - r])
+        if not gap >= 0.05 * w[0]:
+            return False
+    return True
+
+
+def _payload_class(rec, a, b):
+    import numpy as np
+    for x, y in zip(a.get("payload", []), b.get("payload", [])):
+        if x.shape != y.shape:
+            continue
+        d = int(np.max(np.abs(x.astype(np.int64) - y.astype(np.int64)))) if x.size else 0
+        k = "payload.equal" if d == 0 else ("payload.one-unit-flip" if d == 1 else "payload.more-than-one-unit")
+        rec["flips"][k] = rec["flips"].get(k, 0) + 1
+
+
 def _decisions(ls, thr):
     import numpy as np
     e = ls["err"]
@@ -238,11 +369,23 @@ def _decisions(ls, thr):
 def _flip_class(a, b, thr):
     """a, b: lists (over the statistics that belong together) of metric dicts from the two runs"""
     import numpy as np
-    if not np.array_equal(a["retries"], b["retries"]) or not np.array_equal(a["iters"], b["iters"]):
+    if not np.array_equal(a["retries"], b["retries"]):
         return "branch-flip"
     if not np.array_equal(_decisions(a, thr), _decisions(b, thr)):
         return "gate-flip"
+    if not np.array_equal(a["iters"], b["iters"]):
+        # same ridge (total_retries agree), same gate decision, only the iteration counts differ: both roots solve the SAME
+        # equation to within the residuals they report, so they are still comparable (re-examination by the property's own
+        # oracle): the caller widens the tolerance by _iter_slack and keeps comparing
+        return "iter-flip"
     return None
+
+
+def _iter_slack(a, b, kap, nmax):
+    """two Newton roots of the same damped matrix with reported residuals e_a, e_b differ by at most ~ n (e_a + e_b) kappa_root"""
+    import numpy as np
+    e = max([1e-6] + [float(x) for x in np.concatenate([np.asarray(a["err"]).ravel(), np.asarray(b["err"]).ravel()]) if np.isfinite(x)])
+    return 4.0 * max(nmax, 1) * e * kap
 
 
 def _cat_metrics(lst):
@@ -258,7 +401,7 @@ def _reexamine(ls, p, meps, thr):
     bad = 0
     for k, (s, x) in enumerate(zip(ls["stats"], ls["pre"])):
         e = float(ls["err"][k])
-        if not (e < thr):
+        if not (e < thr) or np.asarray(x).shape != np.asarray(s).shape or ls.get("payload"):
             continue
         s = np.asarray(s, np.float64)
         x = np.asarray(x, np.float64)
@@ -289,7 +432,8 @@ def run_ds_blocks(c):
     names = ["b%03d" % i for i in range(nb)]
     thr = c["thr"]
     rank = len(shape)
-    p = 2 * rank
+    pax = paxes(rank, c.get("ptype"))
+    p = 2 * len(pax)
     rec = {"task": c, "fails": [], "rows": [], "flips": {}, "bitwise": 0, "compared": 0, "nontrivial": [], "plan": None,
            "maxrel": 0.0, "reexam_suspect": 0}
     whole = ds_run(c, "NONE", {"w": shape}, [{"w": g} for g in hist])
@@ -297,24 +441,27 @@ def run_ds_blocks(c):
                  [{n: _sl(g, blk) for n, blk in zip(names, blocks)} for g in hist])
     graft = c.get("graft")
     grafted = ds_run(c, graft, {"w": shape}, [{"w": g} for g in hist], beta1=0.0) if graft else None
-    nst = rank if rank >= 1 else 0
+    nst = len(pax)
     dead = [False] * nb
+    prev_tol = [0.0] * nb
+    slack = [0.0] * nb
     rec["streams"] = nb
     # ---- plan observation (layout of the blocked leaf's state)
     rec["plan"] = {"nstats": len(whole[0]["w"][1]["stats"]), "sizes": [int(s.shape[0]) for s in whole[0]["w"][1]["stats"]]}
     # ---- slot contents: statistic (block b, axis a) is the decayed Gram matrix of exactly that slice
     w2 = 1.0 if c["beta2"] == 1.0 else 1.0 - c["beta2"]
-    ref = [[c.get("meps", 1e-6) * np.eye(hi - lo) for lo, hi in blk] for blk in blocks]
+    ref = [[c.get("meps", 1e-6) * np.eye(blk[a][1] - blk[a][0]) for a in pax] for blk in blocks]
+    ctol = 5e-4 if c.get("mode") == "pmapq" else 2e-5
     for t in range(T):
         uW, sW = whole[t]["w"]
         for b, blk in enumerate(blocks):
             gb = np.asarray(_sl(hist[t], blk), np.float64)
-            for a in range(rank):
+            for k_, a in enumerate(pax):
                 m = np.moveaxis(gb, a, 0).reshape(gb.shape[a], -1)
-                ref[b][a] = c["beta2"] * ref[b][a] + w2 * (m @ m.T)
-                got = sW["stats"][b * nst + a]
-                r = _rel(got, ref[b][a])
-                if not r <= 2e-5:
+                ref[b][k_] = c["beta2"] * ref[b][k_] + w2 * (m @ m.T)
+                got = sW["stats"][b * nst + k_]
+                r = _rel(got, ref[b][k_])
+                if not r <= ctol:
                     rec["fails"].append({"what": "DS statistic slot does not hold the Gram matrix of its own block slice",
                                          "t": t, "block": b, "axis": a, "rel": r})
         mw = sW
@@ -322,6 +469,12 @@ def run_ds_blocks(c):
             uS, sS = sep[t][n]
             sub = {k: mw[k][b * nst:(b + 1) * nst] for k in ("err", "iters", "retries", "maxev")}
             fl = _flip_class(sub, sS, thr)
+            if fl == "iter-flip":
+                if not dead[b]:
+                    rec["flips"][fl] = rec["flips"].get(fl, 0) + 1
+                    kap_, _, _ = _tols(sS["stats"], p, c)
+                    slack[b] = max(slack[b], _iter_slack(sub, sS, kap_, max([x.shape[0] for x in sS["stats"]] + [1])))
+                fl = None
             if fl and not dead[b]:
                 dead[b] = True
                 rec["flips"][fl] = rec["flips"].get(fl, 0) + 1
@@ -335,9 +488,17 @@ def run_ds_blocks(c):
                 rec["reexam_suspect"] += _reexamine(sS, p, c.get("meps", 1e-6), thr)
                 rec["reexam_suspect"] += _reexamine({"stats": sW["stats"][b * nst:(b + 1) * nst], "pre": sW["pre"][b * nst:(b + 1) * nst],
                                                      "err": sub["err"], "retries": sub["retries"]}, p, c.get("meps", 1e-6), thr)
+            if not dead[b] and c.get("comp") and not _gap_ok(sS["stats"], c["comp"]):
+                dead[b] = True
+                rec["flips"]["gap-small"] = rec["flips"].get("gap-small", 0) + 1
             if dead[b]:
                 continue
             kap, tol, tolp = _tols(sS["stats"], p, c)
+            tol, tst, tolp = _mode_tols(c, kap, tol, tolp, max([x.shape[0] for x in sS["stats"]] + [1]), nst)
+            if c.get("mode") == "sharded":
+                tol, prev_tol[b] = max(tol, prev_tol[b]), tol
+            tol, tolp = tol + slack[b], tolp + slack[b]
+            _payload_class(rec, {"payload": sW.get("payload", [])[b * nst:(b + 1) * nst]}, sS)
             a_, b_ = _sl(uW, blk), uS
             r = _rel(a_, b_)
             rec["compared"] += 1
@@ -349,12 +510,14 @@ def run_ds_blocks(c):
                                      "t": t, "block": b, "rel": r, "tol": tol, "scale": float(scales[b])})
             # state of the block
             for a in range(nst):
-                for key, tl in (("stats", TOL), ("pre", tolp)):
+                for key, tl in (("stats", tst), ("pre", tolp)):
+                    if tl == float("inf"):
+                        continue
                     rr = _rel(sW[key][b * nst + a], sS[key][a])
                     if not rr <= tl:
                         rec["fails"].append({"what": f"DS blocked tensor: {key}[block,axis] differs from the separate leaf's", "t": t,
                                              "block": b, "axis": a, "rel": rr, "tol": tl})
-            rr = _rel(_sl(sW["mom"], blk), sS["mom"])
+            rr = _rel(_sl(sW["mom"], blk), sS["mom"]) if c.get("mode") != "pmapq" else 0.0   # int8 momentum: per-parameter column scales
             if not rr <= tol:
                 rec["fails"].append({"what": "DS blocked tensor: momentum of a block differs from the separate leaf's", "t": t, "block": b,
                                      "rel": rr, "tol": tol})
@@ -413,7 +576,7 @@ def run_ds_companions(c):
     else:
         for i, n in enumerate(sorted(leaves)):
             blocks = ds_blocks_of(leaves[n], c["block"])
-            sc = _block_scales(rs, len(blocks), c["scales"]) * 10.0 ** rs.uniform(-3, 3)
+            sc = _block_scales(rs, len(blocks), c["scales"]) * 10.0 ** (rs.uniform(-3, -1) if c.get("small") else rs.uniform(-1.5, 0.7) if c.get("moderate") else rs.uniform(-3, 3))
             hist[n] = make_history(c["seed"] + 7 * i + 1, leaves[n], blocks, sc, T, np.float32)
     rec = {"task": c, "fails": [], "flips": {}, "bitwise": 0, "compared": 0, "nontrivial": [], "maxrel": 0.0,
            "reexam_suspect": 0, "layouts": []}
@@ -429,9 +592,11 @@ def run_ds_companions(c):
         full = ds_run(c, graft, shapes, [{**{n: hist[n][t] for n in leaves}, **{n: ch[n][t] for n in cshapes}} for t in range(T)])
         for n in sorted(leaves):
             dead = False
+            prev_tol = 0.0
+            slack = 0.0
             rec["streams"] = rec.get("streams", 0) + 1
             rank = len(leaves[n])
-            p = 2 * max(rank, 1)
+            p = 2 * max(len(paxes(rank, c.get("ptype"))), 1)
             for t in range(T):
                 uA, sA = base[t][n]
                 uB, sB = full[t][n]
@@ -440,6 +605,11 @@ def run_ds_companions(c):
                     dead = True
                     break
                 fl = _flip_class(sA, sB, thr)
+                if fl == "iter-flip":
+                    rec["flips"][fl] = rec["flips"].get(fl, 0) + 1
+                    kap_, _, _ = _tols(sA["stats"], p, c)
+                    slack = max(slack, _iter_slack(sA, sB, kap_, max([x.shape[0] for x in sA["stats"]] + [1])))
+                    fl = None
                 if fl and not dead:
                     dead = True
                     rec["flips"][fl] = rec["flips"].get(fl, 0) + 1
@@ -453,9 +623,19 @@ def run_ds_companions(c):
                             rec.setdefault("k8", []).append({"leaf": n, "variant": vi, "t": t, "rel": r_, "tol": tol_,
                                                              "errors_alone": [float(x) for x in sA["err"]],
                                                              "errors_with_companions": [float(x) for x in sB["err"]]})
+                if not dead and c.get("comp") and not _gap_ok(sA["stats"], c["comp"]):
+                    dead = True
+                    rec["flips"]["gap-small"] = rec["flips"].get("gap-small", 0) + 1
                 if dead:
                     break
                 kap, tol, tolp = _tols(sA["stats"], p, c)
+                tol, tst, tolp = _mode_tols(c, kap, tol, tolp, max([x.shape[0] for x in sA["stats"]] + [1]), len(paxes(rank, c.get("ptype"))))
+                if c.get("mode") == "sharded":
+                    tol, prev_tol = max(tol, prev_tol), tol
+                tol, tolp = tol + slack, tolp + slack
+                _payload_class(rec, sA, sB)
+                if "index_start" in sA and sA["index_start"] != sB["index_start"]:
+                    rec["flips"]["sharded.index_start_shifted"] = rec["flips"].get("sharded.index_start_shifted", 0) + 1
                 r = _rel(uB, uA)
                 rec["compared"] += 1
                 rec["maxrel"] = max(rec["maxrel"], r / kap)
@@ -463,13 +643,15 @@ def run_ds_companions(c):
                 if not r <= tol:
                     rec["fails"].append({"what": "DS: update of a leaf changes when other leaves are added to the tree", "leaf": n,
                                          "variant": vi, "t": t, "rel": r, "tol": tol})
-                for key, tl in (("stats", TOL), ("pre", tolp)):
+                for key, tl in (("stats", tst), ("pre", tolp)):
+                    if tl == float("inf"):
+                        continue
                     for k, (x, y) in enumerate(zip(sA[key], sB[key])):
                         rr = _rel(y, x)
                         if not rr <= tl:
                             rec["fails"].append({"what": f"DS: state ({key}) of a leaf changes when other leaves are added", "leaf": n,
                                                  "variant": vi, "t": t, "k": k, "rel": rr, "tol": tl})
-                for key in ("mom", "dmom", "diag"):
+                for key in (("diag",) if c.get("mode") == "pmapq" else ("mom", "dmom", "diag")):   # pmapq: momenta are int8-quantized
                     rr = _rel(sB[key], sA[key])
                     if not rr <= tol:
                         rec["fails"].append({"what": f"DS: state ({key}) of a leaf changes when other leaves are added", "leaf": n,
@@ -478,7 +660,9 @@ def run_ds_companions(c):
                     rec["nontrivial"].append((n, vi, t))
         mx = max([0] + [x.shape[0] for n in shapes for x in full[0][n][1]["stats"]])
         rec["layouts"].append({"variant": vi, "max_size": int(mx), "own_max": int(max([0] + [x.shape[0] for n in leaves for x in base[0][n][1]["stats"]])),
-                               "nstats": int(sum(len(full[0][n][1]["stats"]) for n in shapes))})
+                               "nstats": int(sum(len(full[0][n][1]["stats"]) for n in shapes)),
+                               "index_start": ({n: full[0][n][1]["index_start"] for n in sorted(shapes)}
+                                               if c.get("mode") == "sharded" else None)})
     return rec
 
 
@@ -518,10 +702,16 @@ def run_rootpad(c):
         rec["fails"].append({"what": "matrix_inverse_pth_root: max_eigen_value (power iteration) of the padded statistic differs",
                              "maxev": rec["metrics"]["maxev"], "maxev_pad": rec["metrics"]["maxev_pad"]})
     fl = _flip_class(A_, B_, 0.1)
+    extra = 0.0
+    if fl == "iter-flip":
+        rec["flips"][fl] = 1
+        extra = _iter_slack(A_, B_, _tols([A], p, c)[0], s)
+        fl = None
     if fl:
         rec["flips"][fl] = 1
         return rec
     kap, _, tolp = _tols([A], p, c)
+    tolp += extra
     r = _rel(Xb[:s, :s], Xa)
     rec["maxrel"] = r / kap
     rec["tol"] = tolp
@@ -780,6 +970,63 @@ def gen_tasks(tier, seed, thr, cut):
                       "p": rng.choice([1, 2, 2, 4, 4, 6]), "rank": rng.randint(1, s + 1), "logscale": rng.uniform(-4, 2.2),
                       "diag": rng.choice([0.0, 1e-6, 1e-3]), "root": "eigh" if i % 2 else "newton", "x64": rng.random() < 0.4,
                       "meps": rng.choice([1e-6, 1e-6, 1e-3, 1e-2])})
+    # ---- optimizer modes: PreconditionerType INPUT / OUTPUT, int16-quantized pmap, compression_rank, sharded
+    n_modes = 16 if quick else 64
+    for i in range(n_modes):
+        variant = ["ptype", "pmapq", "comp", "sharded"][i % 4]
+        kind = "ds_blocks" if (i // 4) % 2 == 0 else "ds_companions"
+        extra = {}
+        if variant == "ptype":
+            extra = {"ptype": rng.choice(["INPUT", "OUTPUT"])}
+        elif variant == "pmapq":
+            extra = {"mode": "pmapq", "ndev": rng.choice([1, 2])}
+        elif variant == "comp":
+            extra = {"comp": rng.choice([1, 2, 2, -1])}
+        else:
+            extra = {"mode": "sharded"}
+            if rng.random() < 0.3:
+                extra["ptype"] = rng.choice(["INPUT", "OUTPUT"])
+        root = "eigh" if rng.random() < 0.4 else "newton"
+        x64 = False if variant in ("pmapq",) else rng.random() < 0.4
+        # moderate gradient scales for the packed / quantized / eigh-gated paths (the acceptance gate of the eigh-based routines
+        # is absolute: known finding K8), wide ones elsewhere
+        scales = "wide" if variant in ("ptype", "sharded") and root == "newton" else rng.choice(["one", [1.0, 0.03, 5.0, 0.2, 1.0, 0.5, 2.0, 0.1, 1.0]])
+        base = {"seed": rng.randrange(1 << 30), "root": root, "T": rng.choice([2, 3]), "beta2": rng.choice([1.0, 0.9, 0.999]),
+                "x64": x64, "thr": thr, "meps": rng.choice([1e-6, 1e-3]), "modes": variant}
+        if kind == "ds_blocks":
+            if variant == "comp":
+                block = rng.choice([6, 7, 8])
+                shape = [rng.choice([block + rng.randint(1, 5), 2 * block]), rng.randint(5, block)]
+                if rng.random() < 0.5:
+                    shape = shape[::-1]
+            else:
+                shape, block = _shape_for_blocks(rng)
+                while len(shape) < 2 and variant == "ptype":
+                    shape, block = _shape_for_blocks(rng)
+            tasks.append(dict(base, kind="ds_blocks", shape=shape, block=block, beta1=(0.0 if variant == "pmapq" else rng.choice([0.0, 0.9])), scales=scales,
+                              graft=rng.choice(["SGD", "RMSPROP", None]), pcs=1, **extra))
+        else:
+            block = rng.choice([8, 12, 32])
+            leaves = {"k0": [rng.randint(5, 9), rng.randint(5, 9)]}
+            single = variant in ("pmapq", "sharded", "comp") and rng.random() < 0.6
+            if single:
+                # one statistic size only (a vector or a square matrix): alone it is not padded at all, with companions it is;
+                # small gradients and a visible ridge, so that anything the padding adds to max_ev / the ridge shows in the roots
+                d_ = rng.randint(6, 8)
+                leaves = {"k0": [d_] if rng.random() < 0.5 else [d_, d_]}
+                base["meps"] = rng.choice([1e-3, 1e-2])
+                base["small"] = True
+            elif rng.random() < 0.5:
+                leaves["k1"] = [rng.randint(5, 9)] if variant != "ptype" else [rng.randint(3, 6), rng.randint(3, 6), 2]
+            own = max(min(d, block) for sh in leaves.values() for d in sh)
+            comps = [_rand_companions(rng, rng.choice([1, 2, 3])) for _ in range(2)]
+            if own < block:
+                comps[1][0] = [comps[1][0][0], [min(block, own + rng.choice([1, 2, 5])), 3], comps[1][0][2]]
+            if variant in ("comp", "pmapq") or root == "eigh":
+                comps = [[[n, sh, 10.0 ** rng.uniform(-1.5, 0.7)] for n, sh, _ in cp] for cp in comps]
+            tasks.append(dict(base, kind="ds_companions", leaves=leaves, block=block, beta1=(0.0 if variant == "pmapq" else rng.choice([0.0, 0.9])),
+                              nesterov=rng.random() < 0.5, scales=("one" if scales != "wide" else "wide"), graft=rng.choice(GRAFTS + ["NONE"]),
+                              companions=comps, moderate=scales != "wide", **extra))
     # Tearfree companions must not contain unit dims / too many large dims: filter here (the package rejects them explicitly)
     for t in tasks:
         if t["kind"] == "tf_blocks" and t["companions"]:
@@ -843,10 +1090,11 @@ def const_stage(ctx):
 
 
 # ============================================================================ model requests and comparison
-def _py_slots(blocks):
+def _py_slots(blocks, ptype=None):
     out = []
     for n, blk in enumerate(blocks):
-        for a, (lo, hi) in enumerate(blk):
+        for a in paxes(len(blk), ptype):
+            lo, hi = blk[a]
             out.append({"block": n, "axis": a, "slice": [[l, h - l] for l, h in blk], "size": hi - lo})
     return out
 
@@ -855,14 +1103,15 @@ def model_requests(rec):
     t = rec["task"]
     k = t["kind"]
     if k == "ds_blocks":
-        return [{"op": "ds_plan", "leaves": [list(t["shape"])], "block": t["block"]}]
+        return [{"op": "ds_plan", "leaves": [list(t["shape"])], "block": t["block"], "ptype": t.get("ptype") or "ALL"}]
     if k == "ds_companions":
         names = sorted(t["leaves"])
         reqs = []
         for comp in t["companions"]:
             shapes = {n: list(t["leaves"][n]) for n in names}
             shapes.update({n: list(s) for n, s, _ in comp})
-            reqs.append({"op": "ds_plan", "leaves": [shapes[n] for n in sorted(shapes)], "block": t["block"]})
+            reqs.append({"op": "ds_plan", "leaves": [shapes[n] for n in sorted(shapes)], "block": t["block"],
+                         "ptype": t.get("ptype") or "ALL", "names": sorted(shapes)})
         return reqs
     if k == "tf_blocks":
         return [{"op": "tf_plan", "shape": list(t["shape"]), "block": t["block"]}]
@@ -890,8 +1139,8 @@ def compare_model(ctx, rec, replies):
     if k == "ds_blocks":
         r = replies[0]
         leaf = r["leaves"][0]
-        want = _py_slots(ds_blocks_of(tuple(t["shape"]), t["block"]))
-        ok = leaf["slots"] == want and leaf["exponent"] == 2 * len(t["shape"])
+        want = _py_slots(ds_blocks_of(tuple(t["shape"]), t["block"]), t.get("ptype"))
+        ok = leaf["slots"] == want and leaf["exponent"] == 2 * len(paxes(len(t["shape"]), t.get("ptype")))
         ok = ok and rec["plan"]["nstats"] == len(leaf["slots"]) and rec["plan"]["sizes"] == [s["size"] for s in leaf["slots"]]
         ctx.corr("ds_plan", ok)
         if not ok:
@@ -904,6 +1153,13 @@ def compare_model(ctx, rec, replies):
                 ctx.disagree("ds_plan.max_size", slim, lay, {"max_size": r["max_size"], "counts": r["counts"]}, "tree-wide max_size / statistic count")
             if lay["max_size"] > lay["own_max"]:
                 ctx.dist("companions.max_size_raised")
+            if lay.get("index_start") is not None:
+                names = sorted(lay["index_start"])
+                got = [lay["index_start"][n] for n in names]
+                oki = got == r["index_start"]
+                ctx.corr("ds_plan.sharded_index_start(EXACT)", oki)
+                if not oki:
+                    ctx.disagree("ds_plan.index_start", slim, got, r["index_start"], "index_start of every leaf in the sharded global statistics")
     elif k == "tf_blocks":
         r = replies[0]
         want = _py_slots(tf_blocks_of(tuple(t["shape"]), t["block"]))
@@ -971,8 +1227,12 @@ def execute(ctx, tasks, rat_n=0):
     order = sorted(range(len(tasks)), key=lambda i: {"ds_blocks": 0, "ds_companions": 1, "tf_blocks": 2}.get(tasks[i]["kind"], 3))
     heavy = [tasks[i] for i in order if tasks[i]["kind"] in ("ds_blocks", "ds_companions", "tf_blocks")]
     light = [tasks[i] for i in order if tasks[i]["kind"] not in ("ds_blocks", "ds_companions", "tf_blocks")]
+    pm = [t for t in heavy if t.get("mode") == "pmapq"]
+    heavy = [t for t in heavy if t.get("mode") != "pmapq"]
     chunks = [[t] for t in heavy] + kit.chunked(light, 6)
     results = kit.parallel_map(worker, chunks, nproc=nproc)
+    if pm:
+        results += kit.parallel_map(worker, [[t] for t in pm], nproc=min(nproc, len(pm)), ndev=2)
     recs = [r for grp in results for r in grp]
     reqs, spans = [], []
     for r in recs:
@@ -1003,6 +1263,9 @@ def execute(ctx, tasks, rat_n=0):
                 ctx.violation("run raised an exception: " + r["exception"][:200], {"task": t})
             continue
         ctx.dist("tasks." + k + ("." + t["root"] if "root" in t else "") + (".x64" if t.get("x64") else ""))
+        if t.get("modes"):
+            ctx.dist("modes." + t["modes"] + "." + k + ((".ndev%d" % t["ndev"]) if t.get("ndev") else "") + (("." + t["ptype"]) if t.get("ptype") else "")
+                     + ((".rank%+d" % t["comp"]) if t.get("comp") else ""))
         n = max(r["compared"], 1)
         ctx.evaluated(n)
         ctx.cov["search_evaluations"] += n
@@ -1010,7 +1273,7 @@ def execute(ctx, tasks, rat_n=0):
         ctx.dist("bitwise_equal." + k, r["bitwise"])
         for f, c in r["flips"].items():
             ctx.dist("classified." + f, c)
-            if k in ("ds_blocks", "ds_companions") and "graft" not in f:
+            if k in ("ds_blocks", "ds_companions") and f in ("branch-flip", "gate-flip"):
                 ctx.cov["flip_streams"] = ctx.cov.get("flip_streams", 0) + c
         if k in ("ds_blocks", "ds_companions"):
             ctx.cov["streams"] = ctx.cov.get("streams", 0) + r.get("streams", 0)
@@ -1080,12 +1343,20 @@ def run(ctx):
         "TOL: update / state entries are compared relative to the leaf's (block's) own norm; tolerance max(1e-5 kS^(1/p), 128 u kS^(3/4)) "
         "for updates and max(1e-5 kS^(1/p), 256 u kS) for stored roots, kS = (lmax + ridge) / (lmin + ridge) of the leaf's statistics, "
         "u = 2^-24 (2^-53 under x64, where the root routine runs in float64); statistics 1e-5",
-        "discontinuities: (leaf, step) pairs are compared only while total_retries, the Newton iteration counts and the acceptance decisions "
-        "(error < inverse_failure_threshold) of both runs agree; otherwise counted as branch-flip / gate-flip, the stored roots re-examined "
+        "discontinuities: (leaf, step) pairs are compared only while total_retries and the acceptance decisions (error < "
+        "inverse_failure_threshold) of both runs agree; when only the Newton iteration counts differ (iter-flip: same ridge, same equation) "
+        "the pair is still compared with the tolerance widened by 4 n max(reported residuals) kappa_root; otherwise counted as branch-flip / "
+        "gate-flip, the stored roots re-examined "
         "against their own equation, never a violation by itself (DESIGN 2.3). Exception: an eigh=True gate flip (the reported eigh residual "
         "is absolute, so it straddles the threshold for statistics of magnitude ~1e5..1e6 in float32) whose pair really differs beyond "
         "tolerance is known finding K8 (KNOWN-FINDING line; a violation if K8 is no longer listed)",
         "Tearfree: a step where an eigenvalue lies within 1e-6 (relative) of eps*max(w) is cut-boundary (not compared)",
+        "modes: PreconditionerType INPUT/OUTPUT (p = 2 x #preconditioned axes); int16-quantized pmap on 1 or 2 forced host devices with "
+        "beta1 = 0 (momentum buffers are int8 with per-PARAMETER column scales, a parameter-level coupling of blocks by design: not compared), "
+        "tolerance widened by 4 n #axes kappa_root / 32767, payload differences classified (equal / one-unit-flip / more); compression_rank: "
+        "updates compared only while the spectral gap at the cut is >= 5% of lambda_max (gap-small otherwise), packed roots not compared "
+        "(eigenvector signs); sharded (jit, one-device mesh): update tolerance = stored-root tolerance of this and the previous refresh, "
+        "index_start of every leaf compared EXACT with the model",
         "Lean hypotheses checked on the source: the Tearfree cut uses max(w, axis=-1, keepdims=True); 0 < eps < 1; exponent p = 2 * rank >= 1; "
         "power_iteration's start vector is prefix-stable (numpy RandomState) and max_eigen_value of padded / unpadded statistics agree",
     ]
